@@ -10,3 +10,6 @@ func verifPoint(f *Feed, point string, ch reflect.Value) {}
 
 // verifMuxPoint marks a synchronisation point of TypeMux (see zz_verif_hooks.go).
 func verifMuxPoint(mux *TypeMux, point string, s *TypeMuxSubscription, typ reflect.Type) {}
+
+// verifScopePoint marks a synchronisation point of SubscriptionScope (see zz_verif_hooks.go).
+func verifScopePoint(sc *SubscriptionScope, point string, s Subscription) {}
